@@ -705,16 +705,14 @@ static int32_t tls13CheckHsState(ssl_t *ssl,
     }
     /*
       The server may send a NewSessionTicket at any time after
-      it has received the client's Finished message.
-      In our state machine, there are two allowed states for this:
-      - SSL_HS_DONE (after having received and sent Finished)
-      - SSL_HS_TLS_1_3_WAIT_FINISHED (after having sent our Finished,
-      but before having received the server Finished.)
+      it has received the client's Finished message. The client sends
+      its Finished only after it has verified the server's (it is then
+      in SSL_HS_DONE): a ticket that arrives earlier is out of order, and
+      the resumption_master_secret it is bound to does not exist yet.
     */
     else if (!MATRIX_IS_SERVER(ssl) &&
             msg == SSL_HS_NEW_SESSION_TICKET &&
-            (ssl->hsState == SSL_HS_DONE ||
-            ssl->hsState == SSL_HS_TLS_1_3_WAIT_FINISHED))
+            ssl->hsState == SSL_HS_DONE)
     {
         return PS_SUCCESS;
     }
@@ -1145,9 +1143,7 @@ static int32_t tls13ParseHandshakeMessage(ssl_t *ssl,
 
           No state update after receiving NST, because:
            - The server is allowed to send multiple NSTs.
-           - We are either already done with the handshake (SSL_HS_DONE)
-             or we still need to receive the server Finished
-             (SSL_HS_TLS_1_3_WAIT_FINISHED).
+           - We are already done with the handshake (SSL_HS_DONE).
         */
         break;
     default:
